@@ -1392,6 +1392,35 @@ func isCurveOidLookup(c *Ctx, v ssa.Value) bool {
 
 // curveOidRawValue: a RawValue struct whose FullBytes is asn1.Marshal(curve oid lookup).
 func curveOidRawValue(c *Ctx, v ssa.Value) bool {
+	// the value made by a module helper from an OID it is given: the helper wraps the encoding of its parameter, and
+	// the OID handed in is an entry of the curve table
+	if ex, isEx := v.(*ssa.Extract); isEx && ex.Index == 0 {
+		if call, isCall := ex.Tuple.(*ssa.Call); isCall {
+			if h := call.Call.StaticCallee(); h != nil && c.InModule(h) && h.Blocks != nil {
+				for i, prm := range h.Params {
+					if !isOID(prm.Type()) || i >= len(call.Call.Args) || !isCurveOidLookup(c, call.Call.Args[i]) {
+						continue
+					}
+					all, any := true, false
+					for _, ret := range returnsOf(h) {
+						if returnsNonNilError(ret) {
+							continue
+						}
+						any = true
+						if !rawValueOfOid(retResults(ret)[0], func(o ssa.Value) bool { return o == ssa.Value(prm) }) {
+							all = false
+						}
+					}
+					if all && any {
+						return true
+					}
+				}
+			}
+		}
+	}
+	if rawValueOfOid(v, func(o ssa.Value) bool { return isCurveOidLookup(c, o) }) {
+		return true
+	}
 	u, ok := v.(*ssa.UnOp)
 	if !ok {
 		return false
@@ -1760,6 +1789,52 @@ func storesSpkiAlg(c *Ctx, g *ssa.Function, d int) bool {
 	for _, ci := range callsIn(g) {
 		if h := ci.Common().StaticCallee(); h != nil && h != g && storesSpkiAlg(c, h, d+1) {
 			return true
+		}
+	}
+	return false
+}
+
+// rawValueOfOid: v is a RawValue variable that holds the DER of an OID satisfying oidIs - its FullBytes are
+// asn1.Marshal(oid), or it was filled by asn1.Unmarshal(asn1.Marshal(oid), &v).
+func rawValueOfOid(v ssa.Value, oidIs func(ssa.Value) bool) bool {
+	u, ok := v.(*ssa.UnOp)
+	if !ok || u.Op != token.MUL {
+		return false
+	}
+	al, ok := u.X.(*ssa.Alloc)
+	if !ok {
+		return false
+	}
+	marshalOf := func(b ssa.Value) bool {
+		for _, pe := range phiEdges(b, nil) {
+			ex, ok := pe.Val.(*ssa.Extract)
+			if !ok {
+				return false
+			}
+			call, ok := ex.Tuple.(*ssa.Call)
+			if !ok || calleeFullName(call) != "encoding/asn1.Marshal" || !oidIs(unwrapIface(call.Call.Args[0])) {
+				return false
+			}
+		}
+		return true
+	}
+	for _, ref := range *al.Referrers() {
+		switch x := ref.(type) {
+		case *ssa.FieldAddr:
+			if fieldOfAddr(x).Name() != "FullBytes" {
+				continue
+			}
+			for _, rr := range *x.Referrers() {
+				if st, ok := rr.(*ssa.Store); ok && marshalOf(st.Val) {
+					return true
+				}
+			}
+		case *ssa.MakeInterface:
+			for _, rr := range *x.Referrers() {
+				if call, ok := rr.(*ssa.Call); ok && calleeFullName(call) == "encoding/asn1.Unmarshal" && len(call.Call.Args) == 2 && call.Call.Args[1] == ssa.Value(x) && marshalOf(call.Call.Args[0]) {
+					return true
+				}
+			}
 		}
 	}
 	return false
